@@ -61,7 +61,7 @@ def draw_values(draw, n: int, dt: str, func: str, *, nan_p=0.2, alphabet=None):
     return vals
 
 
-LABEL_KINDS = ["int", "int", "negint", "bigint", "float", "str"]
+LABEL_KINDS = ["int", "int", "negint", "bigint", "float", "floatint", "str"]
 
 
 def label_pool(draw, kind: str, ngroups: int):
@@ -74,6 +74,9 @@ def label_pool(draw, kind: str, ngroups: int):
         pool = [10**9, 10**9 + 1, -(10**9), 3, 0, 2**40, -5, 77]
     elif kind == "float":
         pool = [-1.5, 0.0, 0.5, 1.0, 2.25, 3.0, 10.0, -8.0]
+    elif kind == "floatint":
+        # float labels that are mostly integral (the usual "integer codes with NaN for missing") plus fractional ones
+        pool = [0.0, 1.0, 2.0, 3.0, 4.0, 0.5, 1.5, 2.5, -1.0]
     elif kind == "str":
         pool = ["a", "b", "c", "d", "e", "f", "g", "h"]
     else:
@@ -83,7 +86,7 @@ def label_pool(draw, kind: str, ngroups: int):
 
 
 def label_dtype(kind: str) -> str:
-    return {"int": "<i8", "negint": "<i8", "bigint": "<i8", "float": "<f8", "str": "U"}[kind]
+    return {"int": "<i8", "negint": "<i8", "bigint": "<i8", "float": "<f8", "floatint": "<f8", "str": "U"}[kind]
 
 
 def draw_label_codes(draw, n: int, ngroups: int, style: str):
@@ -132,7 +135,7 @@ def draw_labels(draw, n: int, *, kinds=None, max_groups=6, missing=True, styles=
     codes = draw_label_codes(draw, n, ngroups, style)
     vals = [pool[c] for c in codes]
     nmissing = 0
-    if missing and kind == "float" and n > 0:
+    if missing and kind in ("float", "floatint") and n > 0:
         mstyle = draw(st.sampled_from(["none", "few", "run", "none"]))
         if mstyle == "few":
             k = draw(st.integers(1, max(1, n // 3)))
